@@ -153,21 +153,65 @@ def discrete_contacts(repo, rep):
     loop = [n for n in f.node.body if isinstance(n, ast.While)][0]
     ul = [s for s in loop.body if isinstance(s, ast.For) and _k(s.iter) == "infecteds"]
     ok = False
+    why = "no `for u in infecteds: for v in G.neighbors(u)` loops"
     if ul:
         u = _k(ul[0].target)
         vl = [s for s in ul[0].body if isinstance(s, ast.For) and _k(s.iter) == "G.neighbors(%s)" % u]
-        if len(vl) == 1 and len(ul[0].body) == 1 and len(vl[0].body) == 1 and isinstance(vl[0].body[0], ast.If):
+        if len(vl) == 1 and len(ul[0].body) == 1:
             v = _k(vl[0].target)
-            i1 = vl[0].body[0]
-            ok = _k(i1.test) in ("%snotininfectedsandrandom.random()<p" % v,) and not i1.orelse
-            if ok:
-                inner = i1.body
-                ok = len(inner) == 1 and isinstance(inner[0], ast.If) and _k(inner[0].test) == "%snotinnew_infecteds" % v and \
-                    sorted(_k(s) for s in inner[0].body) == sorted(["new_infecteds.add(%s)" % v, "infector[%s]=[%s]" % (v, u)]) and \
-                    [_k(s) for s in inner[0].orelse] == ["infector[%s].append(%s)" % (v, u)]
+            ctxs_ = [c for c in walk_function(f.node) if vl[0] in c.loops]
+            base = None
+            for c in walk_function(f.node):
+                if c.stmt is vl[0]:
+                    base = {(_k(fx), pol) for fx, pol in c.facts}
+            adds = [c for c in ctxs_ if isinstance(c.stmt, ast.Expr) and _k(c.stmt) == "new_infecteds.add(%s)" % v]
+            draws = [x for x in ast.walk(vl[0]) if isinstance(x, ast.Call) and _k(x.func) == "random.random"]
+            MEM, DRAW, NEW = "%snotininfecteds" % v, "random.random()<p", "%snotinnew_infecteds" % v
+            MEMN, NEWN = "%sininfecteds" % v, "%sinnew_infecteds" % v
+
+            def norm(fx, pol):
+                k = _k(fx)
+                if k == MEMN:
+                    return (MEM, not pol)
+                if k == NEWN:
+                    return (NEW, not pol)
+                return (k, pol)
+            ok = len(adds) >= 1 and len(draws) == 1
+            why = "%d additions to the next generation, %d draws per contact" % (len(adds), len(draws))
+            for c in adds:
+                inner = [norm(fx, pol) for fx, pol in c.facts if (_k(fx), pol) not in (base or set())]
+                keys = [k for k, _ in inner]
+                good = (MEM, True) in inner and (DRAW, True) in inner and keys.index(MEM) < keys.index(DRAW) \
+                    and all(k in (MEM, DRAW, NEW) for k in keys)
+                if not good:
+                    ok = False
+                    why = "a node enters the next generation under %s, not under `%s not in infecteds` then one draw `random.random() < p`" % (
+                        [("" if pol else "not ") + k for k, pol in inner], v)
+            # who infected v: first contact starts the list, later ones extend it (or setdefault does both)
+            inf_ops = [c for c in ctxs_ if isinstance(c.stmt, (ast.Assign, ast.Expr)) and "infector" in _k(c.stmt)]
+            forms = sorted(_k(c.stmt) for c in inf_ops)
+            pair = forms == sorted(["infector[%s]=[%s]" % (v, u), "infector[%s].append(%s)" % (v, u)])
+            sd = forms == ["infector.setdefault(%s,[]).append(%s)" % (v, u)]
+            if pair:
+                for c in inf_ops:
+                    # the enclosing test (the fact itself is gone once new_infecteds.add(v) has run in the same arm)
+                    fs = {norm(fx, pol) for fx, pol in c.facts} | {norm(fx, pol) for fx, pol in c.enclosing_conditions()}
+                    want = (NEW, True) if "=[" in _k(c.stmt) else (NEW, False)
+                    if want not in fs:
+                        ok = False
+                        why = "%s is not under `%s%s in new_infecteds`" % (_k(c.stmt), v, " not" if want[1] else "")
+            elif sd:
+                c = inf_ops[0]
+                fs = [norm(fx, pol) for fx, pol in c.facts if (_k(fx), pol) not in (base or set())]
+                if not ((MEM, True) in fs and (DRAW, True) in fs and all(k in (MEM, DRAW) for k, _ in fs)):
+                    ok = False
+                    why = "infector.setdefault(...) is not executed for exactly the successful contacts"
+            else:
+                ok = False
+                why = "infector bookkeeping %s" % forms
     rep.ob("DISC", ok, "basic_discrete_SIS: each (infectious u, non-infectious neighbour v) contact succeeds with one draw < p; "
            "infectious status is that of the current generation for the whole step", func=f, node=loop, construct="SIS contact loops: %s" % ok,
-           detail="" if ok else "contact test is not `v not in infecteds and random.random() < p` over the current generation")
+           detail="" if ok else "contact test is not `v not in infecteds and random.random() < p` over the current generation (%s)" % why)
     # S = N - I each step
     t = [_k(s) for s in loop.body]
     ok = "S.append(N-len(infecteds))" in t and "I.append(len(infecteds))" in t and t.index("infecteds=new_infecteds") < t.index("I.append(len(infecteds))")
